@@ -9,6 +9,7 @@ Local Open Scope list_scope.
 Section P4.
   Variable V : Type.
   Variable bin : binop -> V -> V -> V.
+  Variable un : unop -> V -> V.
   Notation node := (node V).
   Notation ival := (ival V).
 
@@ -23,6 +24,7 @@ Section P4.
         (fix go (ms : list (string * (nat * node))) : Prop :=
            match ms with [] => True | (_, (_, c)) :: ms' => wf2 c /\ go ms' end) ms
     | NBin _ ln rn l r => (ln <> rn \/ l = r) /\ wf2 l /\ wf2 r
+    | NUn _ _ c => wf2 c
     | NModel _ _ attrs | NColl attrs =>
         NoDup (map fst attrs) /\
         (fix go (a : list (string * node)) : Prop :=
@@ -49,7 +51,7 @@ Section P4.
 
   Lemma wf_wf2 (n : node) : wf V n -> wf2 n.
   Proof.
-    induction n as [q|c|ms IH|o ln rn l r IHl IHr|cls ctor attrs IH|attrs IH] using (node_ind' V); intro W.
+    induction n as [q|c|ms IH|o ln rn l r IHl IHr|uo unm uc IHc|cls ctor attrs IH|attrs IH] using (node_ind' V); intro W.
     - exact I.
     - exact I.
     - destruct W as [ND W]. split; [exact ND|]. clear ND.
@@ -57,6 +59,7 @@ Section P4.
       destruct W as [Wc Wr]. inversion IH as [|? ? IHc IHrest]; subst. simpl in IHc.
       split; [apply IHc; exact Wc|apply IHms; assumption].
     - destruct W as [Hne [Wl Wr]]. cbn [wf2]. repeat split; [left; exact Hne|apply IHl; exact Wl|apply IHr; exact Wr].
+    - apply IHc. exact W.
     - destruct W as [ND W]. split; [exact ND|]. clear ND.
       induction attrs as [|[k c] attrs IHa]; [exact I|].
       destruct W as [Wc Wr]. inversion IH as [|? ? IHc IHrest]; subst. simpl in IHc.
@@ -69,9 +72,9 @@ Section P4.
 
   (* ---------- inst depends only on the values of the model's own parameters (under wf2) ---------- *)
   Lemma inst_ext2 (a1 a2 : nat -> option V) (n : node) :
-    wf2 n -> (forall q, In q (prior_ids V n) -> a1 q = a2 q) -> inst V bin a1 n = inst V bin a2 n.
+    wf2 n -> (forall q, In q (prior_ids V n) -> a1 q = a2 q) -> inst V bin un a1 n = inst V bin un a2 n.
   Proof.
-    induction n as [q|c|ms IH|o ln rn l r IHl IHr|cls ctor attrs IH|attrs IH] using (node_ind' V); intros W E.
+    induction n as [q|c|ms IH|o ln rn l r IHl IHr|uo unm uc IHc|cls ctor attrs IH|attrs IH] using (node_ind' V); intros W E.
     - cbn [inst]. rewrite (E q); [reflexivity|]. left; reflexivity.
     - reflexivity.
     - rewrite !inst_tuple. f_equal. f_equal. unfold member_vals. f_equal.
@@ -82,7 +85,7 @@ Section P4.
     - destruct W as [Hor [Wl Wr]]. cbn [inst].
       destruct (String.eqb_spec ln rn) as [Eq|Hne].
       + destruct Hor as [Hne|Elr]; [contradiction|]. subst l.
-        assert (Er : inst V bin a1 r = inst V bin a2 r).
+        assert (Er : inst V bin un a1 r = inst V bin un a2 r).
         { apply IHr; [exact Wr|]. intros q Hq. apply E. unfold prior_ids. cbn [walk].
           subst rn. rewrite String.eqb_refl. unfold prefix_paths. rewrite map_map. simpl. exact Hq. }
         rewrite Er. reflexivity.
@@ -90,8 +93,12 @@ Section P4.
         { intros q Hq. unfold prior_ids. cbn [walk]. destruct (String.eqb_spec ln rn) as [Eq|_]; [contradiction|].
           rewrite map_app. apply in_or_app. unfold prefix_paths. rewrite !map_map. simpl. exact Hq. }
         rewrite (IHl Wl), (IHr Wr); [reflexivity| |]; intros q Hq; apply E; apply Sub; auto.
+    - assert (Ei : inst V bin un a1 uc = inst V bin un a2 uc).
+      { apply IHc; [exact W|]. intros q Hq. apply E. unfold prior_ids in *. cbn [walk].
+        unfold prefix_paths. rewrite map_map. simpl. exact Hq. }
+      cbn [inst]. rewrite Ei. reflexivity.
     - destruct W as [_ W]. cbn [inst]. rewrite !inst_attrs_map.
-      assert (M : map (fun kv => (fst kv, inst V bin a1 (snd kv))) attrs = map (fun kv => (fst kv, inst V bin a2 (snd kv))) attrs).
+      assert (M : map (fun kv => (fst kv, inst V bin un a1 (snd kv))) attrs = map (fun kv => (fst kv, inst V bin un a2 (snd kv))) attrs).
       { apply map_ext_in. intros [k c] Hin. simpl. f_equal. rewrite Forall_forall in IH. apply (IH _ Hin).
         - exact (wf2_attrs_in attrs k c W Hin).
         - intros q Hq. apply E. unfold prior_ids. cbn [walk]. exact (walk_attrs_in V attrs k c q Hin Hq). }
@@ -105,7 +112,7 @@ Section P4.
   (* ---------- every advertised path resolves to its prior (under wf2) ---------- *)
   Lemma walk_prior_at2 (n : node) : wf2 n -> forall p q, In (p, q) (walk V n) -> prior_at V p n = Some q.
   Proof.
-    induction n as [q0|c|ms IH|o ln rn l r IHl IHr|cls ctor attrs IH|attrs IH] using (node_ind' V); intros W p q Hin.
+    induction n as [q0|c|ms IH|o ln rn l r IHl IHr|uo unm uc IHc|cls ctor attrs IH|attrs IH] using (node_ind' V); intros W p q Hin.
     - simpl in Hin. destruct Hin as [E|[]]. inversion E; subst. reflexivity.
     - contradiction.
     - destruct W as [ND W]. cbn [walk] in Hin.
@@ -119,6 +126,8 @@ Section P4.
       + apply in_app_or in Hin. destruct Hin as [H|H]; apply in_prefix in H; destruct H as [p' [-> Hw]]; cbn [prior_at].
         * destruct (String.eqb_spec ln rn) as [E|_]; [contradiction|]. rewrite String.eqb_refl. apply IHl; assumption.
         * rewrite String.eqb_refl. apply IHr; assumption.
+    - cbn [walk] in Hin. apply in_prefix in Hin. destruct Hin as [p' [-> Hw]].
+      cbn [prior_at]. rewrite String.eqb_refl. apply IHc; assumption.
     - destruct W as [ND W]. cbn [walk] in Hin.
       destruct (attrs_walk_in V attrs p q Hin) as [k [c [p' [-> [Ha Hw]]]]].
       cbn [prior_at]. rewrite (attrs_find V attrs k c p' ND Ha).
@@ -144,7 +153,7 @@ Section P4.
   Proof.
     induction p as [|k p IH]; intros n c p' H.
     - simpl in H. inversion H; subst. reflexivity.
-    - destruct n as [q|v|ms|o ln rn l r|cls ctor attrs|attrs]; simpl in H; try discriminate.
+    - destruct n as [q|v|ms|o ln rn l r|uo unm uc|cls ctor attrs|attrs]; simpl in H; try discriminate.
       + destruct (assoc k attrs) as [c'|] eqn:A; [|discriminate].
         change ((k :: p) ++ p') with (k :: (p ++ p')). cbn [prior_at]. rewrite attrs_go_assoc, A. apply IH. exact H.
       + destruct (assoc k attrs) as [c'|] eqn:A; [|discriminate].
@@ -167,7 +176,7 @@ Section P4.
   Proof.
     induction p as [|k p IH]; intros n c W H.
     - simpl in H. inversion H; subst. exact W.
-    - destruct n as [q|v|ms|o ln rn l r|cls ctor attrs|attrs]; simpl in H; try discriminate;
+    - destruct n as [q|v|ms|o ln rn l r|uo unm uc|cls ctor attrs|attrs]; simpl in H; try discriminate;
         (destruct (assoc k attrs) as [c'|] eqn:A; [|discriminate]);
         destruct W as [_ W]; apply (IH c' c); [|exact H| |exact H];
         exact (wf2_attrs_in attrs k c' W (assoc_in k attrs c' A)).
@@ -178,7 +187,7 @@ Section P4.
   Proof.
     induction p as [|k p IH]; intros n c q H Hq.
     - simpl in H. inversion H; subst. exact Hq.
-    - destruct n as [q0|v|ms|o ln rn l r|cls ctor attrs|attrs]; simpl in H; try discriminate;
+    - destruct n as [q0|v|ms|o ln rn l r|uo unm uc|cls ctor attrs|attrs]; simpl in H; try discriminate;
         (destruct (assoc k attrs) as [c'|] eqn:A; [|discriminate]);
         unfold prior_ids; cbn [walk];
         apply (walk_attrs_in V attrs k c' q (assoc_in k attrs c' A));
@@ -196,20 +205,21 @@ Section P4.
   Qed.
 
   (* classification of the advertised paths: each one reaches, through Model / Collection attributes only,
-     either the parameter itself, or a tuple / arithmetic node inside which the rest of the path lies *)
+     either the parameter itself, or a tuple / arithmetic (binary or unary) node inside which the rest of the path lies *)
   Definition opaque (c : node) : bool :=
-    match c with NTuple _ | NBin _ _ _ _ _ => true | _ => false end.
+    match c with NTuple _ | NBin _ _ _ _ _ | NUn _ _ _ => true | _ => false end.
 
   Lemma walk_classify (n : node) : wf2 n -> forall p q, In (p, q) (walk V n) ->
     exists p1 p2 c, p = p1 ++ p2 /\ node_at V p1 n = Some c /\
       ((c = NPrior q /\ p2 = []) \/ (opaque c = true /\ In (p2, q) (walk V c))).
   Proof.
-    induction n as [q0|c0|ms IH|o ln rn l r IHl IHr|cls ctor attrs IH|attrs IH] using (node_ind' V); intros W p q Hin.
+    induction n as [q0|c0|ms IH|o ln rn l r IHl IHr|uo unm uc IHc|cls ctor attrs IH|attrs IH] using (node_ind' V); intros W p q Hin.
     - simpl in Hin. destruct Hin as [E|[]]. inversion E; subst.
       exists [], [], (NPrior q). repeat split. left. split; reflexivity.
     - contradiction.
     - exists [], p, (NTuple ms). repeat split. right. split; [reflexivity|exact Hin].
     - exists [], p, (NBin o ln rn l r). repeat split. right. split; [reflexivity|exact Hin].
+    - exists [], p, (NUn uo unm uc). repeat split. right. split; [reflexivity|exact Hin].
     - destruct W as [ND W]. cbn [walk] in Hin.
       destruct (attrs_walk_in V attrs p q Hin) as [k [c [p' [-> [Ha Hw]]]]].
       rewrite Forall_forall in IH.
@@ -228,13 +238,13 @@ Section P4.
   Theorem ith_value (n : node) (vec : list V) (i : nat) (dp : path) (dv : V) :
     wf2 n -> List.length vec = prior_count V n -> i < prior_count V n ->
     node_at V (nth i (unique_prior_paths V n) dp) n <> None ->
-    lookup V (nth i (unique_prior_paths V n) dp) (inst_from_vector V bin n vec) = Some (IV (nth i vec dv)).
+    lookup V (nth i (unique_prior_paths V n) dp) (inst_from_vector V bin un n vec) = Some (IV (nth i vec dv)).
   Proof.
     intros W L Hi Hs.
     destruct (node_at V (nth i (unique_prior_paths V n) dp) n) as [c|] eqn:H; [|contradiction]. clear Hs.
     assert (Hin := ith_path V n i 0 dp Hi).
     assert (Ec := structural_is_prior n c _ _ W Hin H). subst c.
-    exact (vector_placement V bin n vec i _ 0 dv L Hi H).
+    exact (vector_placement V bin un n vec i _ 0 dv L Hi H).
   Qed.
 
   Lemma prior_at_tuple (ms : list (string * (nat * node))) (k : string) (p' : path) (j : nat) (c : node) :
@@ -250,7 +260,7 @@ Section P4.
     node_at V p1 n = Some (NTuple ms) ->
     Permutation (map (fun m => fst (snd m)) ms) (seq 0 (List.length ms)) ->
     In (k, (j, c)) ms ->
-    exists vs, lookup V p1 (inst_from_vector V bin n vec) = Some (ITup vs) /\
+    exists vs, lookup V p1 (inst_from_vector V bin un n vec) = Some (ITup vs) /\
                List.length vs = List.length ms /\ nth j vs IMissing = IV (nth i vec dv).
   Proof.
     intros W L Hi Ep Hn P Hm.
@@ -260,8 +270,8 @@ Section P4.
     assert (Wt := wf2_node_at p1 n (NTuple ms) W Hn). destruct Wt as [ND _].
     rewrite (prior_at_tuple ms k [] j c ND Hm) in R.
     destruct c; simpl in R; try discriminate. inversion R; subst pid.
-    unfold inst_from_vector. rewrite (lookup_inst V bin _ p1 n _ Hn).
-    destruct (tuple_in_position_order V bin (zip_args V (ordered_ids V n) vec) ms k j _ P Hm) as [vs [E1 [E2 E3]]].
+    unfold inst_from_vector. rewrite (lookup_inst V bin un _ p1 n _ Hn).
+    destruct (tuple_in_position_order V bin un (zip_args V (ordered_ids V n) vec) ms k j _ P Hm) as [vs [E1 [E2 E3]]].
     exists vs. split; [rewrite E1; reflexivity|]. split; [exact E2|]. rewrite E3. cbn [inst].
     rewrite (zip_args_nth V _ vec i 0 dv); [reflexivity|apply ordered_ids_nodup| |];
       rewrite ordered_ids_length; assumption.
@@ -271,7 +281,7 @@ Section P4.
   Theorem path_route_gen (n : node) (pv : list (path * V)) (vec : list V) :
     wf2 n -> List.length vec = prior_count V n ->
     (forall i, i < prior_count V n -> path_args V n pv (nth i (ordered_ids V n) 0) = nth_error vec i) ->
-    inst_from_paths V bin n pv = inst_from_vector V bin n vec.
+    inst_from_paths V bin un n pv = inst_from_vector V bin un n vec.
   Proof.
     intros W L R. unfold inst_from_paths, inst_from_vector. apply inst_ext2; [exact W|].
     intros q Hq. apply ordered_ids_in in Hq.
@@ -305,7 +315,7 @@ Section P4.
   Theorem path_route_chosen (n : node) (ps : list path) (vec : list V) :
     wf2 n -> List.length vec = prior_count V n -> List.length ps = prior_count V n ->
     (forall j dp, j < prior_count V n -> prior_at V (nth j ps dp) n = Some (nth j (ordered_ids V n) 0)) ->
-    inst_from_paths V bin n (combine ps vec) = inst_from_vector V bin n vec.
+    inst_from_paths V bin un n (combine ps vec) = inst_from_vector V bin un n vec.
   Proof.
     intros W L Lp R. apply path_route_gen; [exact W|exact L|].
     intros i Hi.
@@ -318,7 +328,7 @@ Section P4.
 
   Theorem path_route2 (n : node) (vec : list V) :
     wf2 n -> List.length vec = prior_count V n ->
-    inst_from_paths V bin n (combine (unique_prior_paths V n) vec) = inst_from_vector V bin n vec.
+    inst_from_paths V bin un n (combine (unique_prior_paths V n) vec) = inst_from_vector V bin un n vec.
   Proof.
     intros W L. apply path_route_chosen; [exact W|exact L| |].
     - unfold unique_prior_paths. rewrite map_length. rewrite <- ordered_ids_length.
@@ -331,10 +341,10 @@ Section P4.
     wf2 n -> List.length vec = prior_count V n -> List.length vec' = prior_count V n ->
     (forall j, j <> i -> nth_error vec j = nth_error vec' j) ->
     node_at V p n = Some c -> ~ In (nth i (ordered_ids V n) 0) (prior_ids V c) ->
-    lookup V p (inst_from_vector V bin n vec) = lookup V p (inst_from_vector V bin n vec').
+    lookup V p (inst_from_vector V bin un n vec) = lookup V p (inst_from_vector V bin un n vec').
   Proof.
     intros W L L' Same H Hnot. unfold inst_from_vector.
-    rewrite !(lookup_inst V bin _ p n c H). f_equal.
+    rewrite !(lookup_inst V bin un _ p n c H). f_equal.
     apply inst_ext2; [exact (wf2_node_at p n c W H)|].
     intros q Hq. assert (Hq' := node_at_prior_ids p n c q H Hq). apply ordered_ids_in in Hq'.
     destruct (In_nth _ _ 0 Hq') as [j [Hj Hnth]]. rewrite <- Hnth.
@@ -361,7 +371,7 @@ Section P4.
     Definition vec_from_unit (n : node) (u : list V) : list V := vmap2 (ordered_ids V n) u.
     Definition unit_args (n : node) (u : list V) : nat -> option V :=
       zip_args V (ordered_ids V n) (vec_from_unit n u).
-    Definition inst_from_unit (n : node) (u : list V) : ival := inst V bin (unit_args n u) n.
+    Definition inst_from_unit (n : node) (u : list V) : ival := inst V bin un (unit_args n u) n.
 
     Lemma vmap2_length (ids : list nat) (u : list V) :
       List.length u = List.length ids -> List.length (vmap2 ids u) = List.length ids.
@@ -378,7 +388,7 @@ Section P4.
     Qed.
 
     Theorem unit_route (n : node) (u : list V) :
-      inst_from_unit n u = inst_from_vector V bin n (vec_from_unit n u).
+      inst_from_unit n u = inst_from_vector V bin un n (vec_from_unit n u).
     Proof. reflexivity. Qed.
 
     (* the i-th unit value, pushed through the i-th prior, is found at every structural place of parameter i *)
@@ -389,7 +399,7 @@ Section P4.
     Proof.
       intros L Hi H. rewrite unit_route.
       assert (Lids := ordered_ids_length V n).
-      rewrite (vector_placement V bin n (vec_from_unit n u) i p 0 dv); [|unfold vec_from_unit; rewrite vmap2_length; lia|exact Hi|exact H].
+      rewrite (vector_placement V bin un n (vec_from_unit n u) i p 0 dv); [|unfold vec_from_unit; rewrite vmap2_length; lia|exact Hi|exact H].
       unfold vec_from_unit. rewrite (vmap2_nth _ u i 0 dv); [reflexivity|lia|lia].
     Qed.
   End Unit.
@@ -439,8 +449,11 @@ Section Wf2Bool.
            | _, _ => false
            end) xs ys
     | NBin o ln rn l r, NBin o' ln' rn' l' r' =>
-        match o, o' with OAdd, OAdd | OSub, OSub | OMul, OMul | ODiv, ODiv => true | _, _ => false end
+        match o, o' with OAdd, OAdd | OSub, OSub | OMul, OMul | ODiv, ODiv | OFloorDiv, OFloorDiv | OMod, OMod => true | _, _ => false end
         && String.eqb ln ln' && String.eqb rn rn' && node_eqb l l' && node_eqb r r'
+    | NUn o nm c, NUn o' nm' c' =>
+        match o, o' with UNeg, UNeg | UAbs, UAbs => true | _, _ => false end
+        && String.eqb nm nm' && node_eqb c c'
     | NModel c ct xs, NModel d dt ys =>
         String.eqb c d && (if list_eq_dec string_dec ct dt then true else false) &&
         (fix go (xs ys : list (string * node V)) : bool :=
@@ -476,26 +489,30 @@ Section Wf2Bool.
 
   Lemma node_eqb_sound (a : node V) : forall b, node_eqb a b = true -> a = b.
   Proof.
-    induction a as [p|v|ms IH|o ln rn l r IHl IHr|cls ctor attrs IH|attrs IH] using (node_ind' V); intros b H.
+    induction a as [p|v|ms IH|o ln rn l r IHl IHr|uo unm uc IHc|cls ctor attrs IH|attrs IH] using (node_ind' V); intros b H.
     - destruct b; try discriminate. simpl in H. apply Nat.eqb_eq in H. subst. reflexivity.
     - destruct b; try discriminate. simpl in H. rewrite (veqb_sound _ _ H). reflexivity.
-    - destruct b as [| |ys| | |]; try discriminate. cbn [node_eqb] in H. f_equal.
+    - destruct b as [| |ys| | | |]; try discriminate. cbn [node_eqb] in H. f_equal.
       revert ys H. induction IH as [|[k [i x]] xs Hx Hxs IHxs]; intros [|[l [j y]] ys] H; try discriminate; [reflexivity|].
       apply andb_true_iff in H. destruct H as [H123 H4]. apply andb_true_iff in H123. destruct H123 as [H12 H3].
       apply andb_true_iff in H12. destruct H12 as [H1 H2].
       apply String.eqb_eq in H1. apply Nat.eqb_eq in H2. subst l j. simpl in Hx. rewrite (Hx y H3).
       rewrite (IHxs ys H4). reflexivity.
-    - destruct b as [| | |o' ln' rn' l' r'| |]; try discriminate. cbn [node_eqb] in H.
+    - destruct b as [| | |o' ln' rn' l' r'| | |]; try discriminate. cbn [node_eqb] in H.
       apply andb_true_iff in H. destruct H as [H1234 H5]. apply andb_true_iff in H1234. destruct H1234 as [H123 H4].
       apply andb_true_iff in H123. destruct H123 as [H12 H3]. apply andb_true_iff in H12. destruct H12 as [H1 H2].
       apply String.eqb_eq in H2, H3. subst. rewrite (IHl _ H4), (IHr _ H5).
       destruct o, o'; try discriminate; reflexivity.
-    - destruct b as [| | | |d dt ys|]; try discriminate. cbn [node_eqb] in H.
+    - destruct b as [| | | |o' nm' c'| |]; try discriminate. cbn [node_eqb] in H.
+      apply andb_true_iff in H. destruct H as [H12 H3]. apply andb_true_iff in H12. destruct H12 as [H1 H2].
+      apply String.eqb_eq in H2. subst. rewrite (IHc _ H3).
+      destruct uo, o'; try discriminate; reflexivity.
+    - destruct b as [| | | | |d dt ys|]; try discriminate. cbn [node_eqb] in H.
       apply andb_true_iff in H. destruct H as [H12 H3]. apply andb_true_iff in H12. destruct H12 as [H1 H2].
       apply String.eqb_eq in H1. subst d.
       destruct (list_eq_dec string_dec ctor dt) as [->|]; [|discriminate].
       rewrite (attrs_eqb_sound attrs IH ys H3). reflexivity.
-    - destruct b as [| | | | |ys]; try discriminate. cbn [node_eqb] in H.
+    - destruct b as [| | | | | |ys]; try discriminate. cbn [node_eqb] in H.
       rewrite (attrs_eqb_sound attrs IH ys H). reflexivity.
   Qed.
 
@@ -507,6 +524,7 @@ Section Wf2Bool.
         (fix go (ms : list (string * (nat * node V))) : bool :=
            match ms with [] => true | (_, (_, c)) :: ms' => wfb2 c && go ms' end) ms
     | NBin _ ln rn l r => (negb (String.eqb ln rn) || node_eqb l r) && wfb2 l && wfb2 r
+    | NUn _ _ c => wfb2 c
     | NModel _ _ attrs | NColl attrs =>
         nodup_strings (map fst attrs) &&
         (fix go (a : list (string * node V)) : bool :=
@@ -515,7 +533,7 @@ Section Wf2Bool.
 
   Lemma wfb2_sound (n : node V) : wfb2 n = true -> wf2 V n.
   Proof.
-    induction n as [q|c|ms IH|o ln rn l r IHl IHr|cls ctor attrs IH|attrs IH] using (node_ind' V); intro H.
+    induction n as [q|c|ms IH|o ln rn l r IHl IHr|uo unm uc IHc|cls ctor attrs IH|attrs IH] using (node_ind' V); intro H.
     - exact I.
     - exact I.
     - cbn [wfb2] in H. apply andb_true_iff in H. destruct H as [H1 H2]. cbn [wf2]. split; [apply nodup_strings_sound; exact H1|].
@@ -527,6 +545,7 @@ Section Wf2Bool.
       apply orb_true_iff in H1. destruct H1 as [H1|H1].
       + left. intro E. subst. rewrite String.eqb_refl in H1. discriminate H1.
       + right. apply node_eqb_sound. exact H1.
+    - apply IHc. exact H.
     - cbn [wfb2] in H. apply andb_true_iff in H. destruct H as [H1 H2]. cbn [wf2]. split; [apply nodup_strings_sound; exact H1|].
       clear H1. induction attrs as [|[k c] attrs IHa]; [exact I|].
       apply andb_true_iff in H2. destruct H2 as [Hc Hr]. inversion IH as [|? ? IHc IHrest]; subst. simpl in IHc.
